@@ -109,8 +109,10 @@ Proof.
   intros Hc H Hlen segs Hsz. destruct (ChunkSize_val Hc) as [Hcs Hbr].
   pose proof Hc as Hc'. unfold consts_ok_C02_b in Hc'. rewrite !andb_true_iff in Hc'.
   destruct Hc' as ((((((((C1 & C2) & C3) & C4) & C5) & C6) & C7) & C8) & C9).
-  apply Z.eqb_eq in C1, C2, C3, C4. apply Z.leb_le in C7.
-  apply equals_spec_code; try assumption; try lia.
-  - unfold BufLen, HashSize. rewrite Hbr. rewrite C3, C4, C2 in C7. rewrite C4. lia.
+  apply Z.eqb_eq in C1, C2, C3, C4, C6. apply Z.leb_le in C7.
+  assert (Hbuf : Z.of_nat BufLen = (Consts.boson_ChunkWithSpanSize * 9 * 2)%Z) by (unfold BufLen; apply Z2Nat.id; lia).
+  assert (Hhs : Z.of_nat HashSize = Consts.boson_HashSize) by (unfold HashSize; apply Z2Nat.id; lia).
+  apply equals_spec_code; [lia | lia | exact Hlen | | lia | ].
+  - rewrite Hbuf, Hhs, Hbr. rewrite C3, C2 in C7. lia.
   - exact (source_capacity Hc (concat segs) Hsz).
 Qed.
